@@ -79,7 +79,7 @@ struct RbHarness : Harness {
     const char *name() const override { return "rbsim"; }
     std::vector<std::string> props() const override { return {"C19"}; }
     std::vector<std::string> probes(const std::string &) const override {
-        return {"override_eviction", "override_eviction_capacity_1", "put_on_full_dropped", "head_wrapped", "tail_wrapped", "get_on_empty", "clear", "iterator_across_wrap"};
+        return {"override_eviction", "override_eviction_capacity_1", "put_on_full_dropped", "head_wrapped", "tail_wrapped", "get_on_empty", "clear", "iterator_across_wrap", "capacity_of_64k_elements_or_more"};
     }
     uint64_t runs(const std::string &, const Tier &t) const override { return t.thorough() ? 5000000 : 4000000; }
 
@@ -117,6 +117,19 @@ struct RbHarness : Harness {
             else if (k < wp + wc + wa) ops.push(r.chance(1, 3) ? "clear" : (r.chance(1, 2) ? "ovr1" : "ovr0"));
             else ops.push(r.chance(1, 2) ? "obs" : "iter");
         }
+        if (r.chance(1, t.thorough() ? 600 : 2500)) {   // rarely a ring of 2^16 elements and more, driven by bulk puts and gets (capacities, indices and counts that do not fit 16 bits)
+            static const int64_t CAPS[] = {65535, 65536, 65537, 70000};
+            cap = CAPS[r.below(4)]; p["cap"] = (long long)cap; if (type == 0 && r.chance(1, 2)) p["type"] = 2;
+            ops = Json::arr();
+            auto bulk = [&](const char *op, int64_t k) { Json o = Json::obj(); o["op"] = op; o["k"] = (long long)k; ops.push(o); };
+            if (r.chance(1, 2)) ops.push("ovr1");
+            bulk("put", r.chance(1, 2) ? cap : cap - r.range(0, 3)); ops.push("iter"); ops.push("obs");
+            bulk("get", r.range(1, cap)); ops.push("iter");
+            bulk("put", r.range(1, cap)); ops.push("iter"); ops.push("obs");
+            if (r.chance(1, 2)) { ops.push(r.chance(1, 2) ? "ovr1" : "ovr0"); bulk("put", r.range(1, 20)); ops.push("iter"); }
+            if (r.chance(1, 3)) { ops.push("clear"); bulk("put", r.range(1, 5)); ops.push("iter"); }
+            int tail = (int)r.below(6); for (int i = 0; i < tail; ++i) ops.push(r.chance(1, 2) ? "put" : "get");
+        }
         p["ops"] = ops;
         return p;
     }
@@ -124,7 +137,8 @@ struct RbHarness : Harness {
     bool nontrivial(const Ctx &c) const override { return c.ops_done > 0; }
 
     void exec(const Json &plan, Ctx &c) override {
-        int64_t cap = plan.geti("cap", 1); if (cap < 1) cap = 1; if (cap > 4096) cap = 4096;
+        int64_t cap = plan.geti("cap", 1); if (cap < 1) cap = 1; if (cap > 80000) cap = 80000;
+        if (cap >= 65536) COUNT("probe.capacity_of_64k_elements_or_more");
         int type = (int)(plan.geti("type") % 5); if (type < 0) type = 0;
         std::unique_ptr<Ring> R;
         switch (type) {
@@ -174,7 +188,29 @@ struct RbHarness : Harness {
         const Json &ops = plan.get("ops");
         for (size_t oi = 0; oi < ops.size(); ++oi) {
             const Json &oj = ops.at(oi);
-            const std::string op = oj.is_str() ? oj.s : "";
+            const std::string op = oj.is_str() ? oj.s : oj.gets("op");
+            int64_t bulk = oj.is_str() ? 1 : oj.geti("k", 1); if (bulk < 1) bulk = 1; if (bulk > 200000) bulk = 200000;
+            if (bulk > 1 && (op == "put" || op == "get")) {   // k puts or gets in a row, observed and iterated once at the end
+                for (int64_t q = 0; q < bulk; ++q) {
+                    c.ops_done++; c.execs++;
+                    if (op == "put") {
+                        uint64_t s = ++serial, v = value_of(s);
+                        bool was_full = M.size() == (size_t)cap;
+                        R->put(v);
+                        if (was_full) { if (ovr) { M.pop_front(); Ms.pop_front(); M.push_back(v); Ms.push_back(s); COUNT("probe.override_eviction"); } else COUNT("probe.put_on_full_dropped"); }
+                        else { M.push_back(v); Ms.push_back(s); }
+                    } else {
+                        uint64_t v = R->get();
+                        if (M.empty()) { if (v != 0) { c.fail("get.empty", "get on empty buffer returned %llu", (unsigned long long)v); break; } }
+                        else { if (v != M.front()) { c.fail("get.fifo", "get returned %llu, oldest queued element is %llu", (unsigned long long)v, (unsigned long long)M.front()); break; } last_got_serial = Ms.front(); M.pop_front(); Ms.pop_front(); }
+                    }
+                }
+                c.ev(EV_API, 5, (uint64_t)bulk, M.size());
+                observe(op.c_str());
+                if (c.viol.empty()) iterate(op.c_str());
+                if (!c.viol.empty()) break;
+                continue;
+            }
             if (op == "put") {
                 c.ops_done++; c.execs++;
                 uint64_t s = ++serial, v = value_of(s);
